@@ -32,7 +32,7 @@ theorem scratchIndepI_addRr (sec : RrSection) (h : Hint) (o : WName) (ty cls ttl
     ((AnsCall.addRr sec h o ty cls ttl rd).run t).1 = ((AnsCall.addRr sec h o ty cls ttl rd).run s).1 ∧
       Same ((AnsCall.addRr sec h o ty cls ttl rd).run s).2 ((AnsCall.addRr sec h o ty cls ttl rd).run t).2 ∧
       ((AnsCall.addRr sec h o ty cls ttl rd).run s).2.hv = ((AnsCall.addRr sec h o ty cls ttl rd).run t).2.hv := by
-  obtain ⟨l, a, ts, ar, rfl⟩ := hf
+  obtain ⟨l, a, ts, ar, rfl⟩ := hf.1
   have w := hI.winv
   have hw : WInv { u with limit := l, available := a, tsig := ts, arcount := ar } :=
     ⟨w.c12, hb1, hb2, w.g12, w.labs, w.qn, w.ow, w.rd, w.clabs⟩
@@ -52,7 +52,7 @@ theorem scratchIndepI_addRrset (sec : RrSection) (h : Hint) (o : WName) (ty cls 
     ((AnsCall.addRrset sec h o ty cls ttl rds).run t).1 = ((AnsCall.addRrset sec h o ty cls ttl rds).run s).1 ∧
       Same ((AnsCall.addRrset sec h o ty cls ttl rds).run s).2 ((AnsCall.addRrset sec h o ty cls ttl rds).run t).2 ∧
       ((AnsCall.addRrset sec h o ty cls ttl rds).run s).2.hv = ((AnsCall.addRrset sec h o ty cls ttl rds).run t).2.hv := by
-  obtain ⟨l, a, ts, ar, rfl⟩ := hf
+  obtain ⟨l, a, ts, ar, rfl⟩ := hf.1
   have w := hI.winv
   have hw : WInv { u with limit := l, available := a, tsig := ts, arcount := ar } :=
     ⟨w.c12, hb1, hb2, w.g12, w.labs, w.qn, w.ow, w.rd, w.clabs⟩
@@ -73,12 +73,17 @@ theorem scratchIndepI_bounded (c : AnsCall) (u s t : State) (hI : Writer.I u) (h
     (hhv : s.hv = t.hv) :
     (c.run t).1 = (c.run s).1 ∧ Same (c.run s).2 (c.run t).2 ∧ (c.run s).2.hv = (c.run t).2.hv := by
   have h12 : 12 ≤ s.cursor := by
-    obtain ⟨l, a, ts, ar, rfl⟩ := hf
+    obtain ⟨l, a, ts, ar, rfl⟩ := hf.1
     exact hI.winv.c12
   cases c with
   | setAa b => exact scratch_setAa b s t h12 hS hhv
   | setRcode v => exact scratch_setRcode v s t h12 hS hhv
   | addRr sec h o ty cls ttl rd => exact scratchIndepI_addRr sec h o ty cls ttl rd u s t hI hpre hf hb1 hb2 hS hhv
   | addRrset sec h o ty cls ttl rds => exact scratchIndepI_addRrset sec h o ty cls ttl rds u s t hI hpre hf hb1 hb2 hS hhv
+
+/-- **`ScratchIndepI` holds**: octets at or above the cursor are scratch space that no call of the
+    answering phase reads (the named writer-level hypothesis of `C10_full_of`, discharged) -/
+theorem scratchIndepI : ScratchIndepI :=
+  fun c u s t hI hpre hf hS hhv => scratchIndepI_bounded c u s t hI hpre hf hf.2.1 hf.2.2 hS hhv
 
 end QV.ServerContent
